@@ -28,6 +28,9 @@ class Interpolation
 	unsigned int Bisection(double x, int jLeft, int jRight);
 	unsigned int Hunt(double x);
 
+	// Values of the curve at the stationary points of the cubic of interval j that lie strictly inside (x_low,x_high).
+	std::vector<double> Stationary_Values(unsigned int j, double x_low, double x_high);
+
   public:
 	std::vector<double> domain;
 
